@@ -4,6 +4,7 @@ import (
 	"fmt"
 	"github.com/metrico/qryn/reader/logql/logql_transpiler_v2/shared"
 	sql "github.com/metrico/qryn/reader/utils/sql_select"
+	"strings"
 	"text/template"
 	"text/template/parse"
 )
@@ -113,7 +114,8 @@ func (l *LineFormatPlanner) node(n parse.Node) error {
 }
 
 func (l *LineFormatPlanner) textNode(n parse.Node) {
-	l.formatStr += string(n.(*parse.TextNode).Text)
+	// format() reads { and } as the delimiters of a replacement field: a literal brace is written doubled
+	l.formatStr += strings.NewReplacer("{", "{{", "}", "}}").Replace(string(n.(*parse.TextNode).Text))
 }
 
 func (l *LineFormatPlanner) fieldNode(n parse.Node) {
